@@ -119,6 +119,17 @@ func gen(seed uint64, tier string) Scenario {
 		sc.PerSession = true
 		sc.StartSeq = uint16(1000 + (x>>8)%20000)
 	}
+	// one reader over UDP-multicast (hash-derived so that no other choice moves); no sequence
+	// number wrap in such runs, so that every datagram must decrypt (see the decode-error oracle)
+	if x := core.HS(seed, "c17.mcast", "", 0); sc.Source == "stream" && !sc.PerSession && x%100 < 15 {
+		for i := range sc.Readers {
+			if sc.Readers[i].Transport == "udp" {
+				sc.Readers[i].Transport = "mcast"
+				sc.StartSeq = uint16(2000 + (x>>8)%30000)
+				break
+			}
+		}
+	}
 	n := simnet.Config{Seed: seed ^ 0x17171717}
 	n.LatMinUS = r.Pick(10, 100, 1000)
 	n.LatMaxUS = n.LatMinUS + r.Pick(0, 50, 500)
@@ -180,12 +191,19 @@ func run(t *testing.T, sc Scenario) *core.Result {
 	var summary map[string]any
 	res := sys.Run(t, opts, func(w *sys.World) {
 		w.ProbeInit("roc_advanced_during_run", "late_joiner_after_wrap", "tampered_rejected", "packets_delivered", "udp_reader", "tcp_reader", "publisher_source",
-			"rtcp_app_delivered", "multi_format_media", "plain_profile_reader_inside_tls", "plain_profile_reader_playing", "auto_protocol_fallback_reader", "auto_reader_got_packets_over_tcp", "wire_bytes_scanned", "srtp_wrap_before_first_packet_waived")
+			"rtcp_app_delivered", "multi_format_media", "plain_profile_reader_inside_tls", "plain_profile_reader_playing", "auto_protocol_fallback_reader", "auto_reader_got_packets_over_tcp", "multicast_reader", "decode_errors_checked", "wire_bytes_scanned", "srtp_wrap_before_first_packet_waived")
 		srvNode := w.Net.Node("srv", "10.0.0.1")
 		h := sys.NewHandler(w)
 		srv := &gortsplib.Server{RTSPAddress: "10.0.0.1:8554", UDPRTPAddress: "10.0.0.1:8000", UDPRTCPAddress: "10.0.0.1:8001", Handler: h,
-			TLSConfig: sys.ServerTLSConfig()}
+			TLSConfig: sys.ServerTLSConfig(), MulticastIPRange: "224.1.0.0/16", MulticastRTPPort: 8002, MulticastRTCPPort: 8003}
 		h.Server = srv
+		for _, rd := range sc.Readers {
+			if rd.Transport == "mcast" {
+				// sender reports of the multicast writers flow during the run
+				srv.VerifSetPeriods(23*time.Millisecond, 10*time.Second, 1*time.Second)
+				w.Probe("multicast_reader")
+			}
+		}
 
 		// ---- wire taps: no marker may ever appear in clear ---------------------------
 		var markers [][]byte
@@ -428,7 +446,11 @@ func run(t *testing.T, sc Scenario) *core.Result {
 			readers[i] = rs
 			name := fmt.Sprintf("reader%d", i)
 			names = append(names, name)
-			node := w.Net.Node(name, fmt.Sprintf("10.0.0.%d", 20+i))
+			ip := fmt.Sprintf("10.0.0.%d", 20+i)
+			if spec.Transport == "mcast" {
+				ip = "127.0.0.1" // the client looks its local address up among the machine's interfaces
+			}
+			node := w.Net.Node(name, ip)
 			if spec.Transport == "udp" {
 				w.Probe("udp_reader")
 			} else {
@@ -443,6 +465,9 @@ func run(t *testing.T, sc Scenario) *core.Result {
 				p := gortsplib.ProtocolTCP
 				if spec.Transport == "udp" {
 					p = gortsplib.ProtocolUDP
+				}
+				if spec.Transport == "mcast" {
+					p = gortsplib.ProtocolUDPMulticast
 				}
 				c := &gortsplib.Client{Scheme: "rtsps", Host: "10.0.0.1:8554", Protocol: &p, TLSConfig: sys.ClientTLSConfig()}
 				if spec.Transport == "auto" {
@@ -641,6 +666,17 @@ func run(t *testing.T, sc Scenario) *core.Result {
 				total += rs.n
 				if rs.decodeErrs > 0 && sc.Net.UDPCorrupt > 0 {
 					w.Probe("tampered_rejected")
+				}
+				// "each side decrypts exactly what the other encrypts": when nothing alters or duplicates
+				// datagrams and the sequence number does not wrap during the run (roll-over counters
+				// cannot disagree), every RTP and RTCP packet a reader receives must decrypt
+				if sc.Net.UDPCorrupt == 0 && sc.Net.UDPDup == 0 && int(sc.StartSeq)+sc.Packets < 65536 && !rs.failed {
+					w.Probe("decode_errors_checked")
+					if rs.decodeErrs > 0 {
+						w.Fail("c17/decrypt error", "reader %d (%s): %d packets could not be decoded although nothing altered or duplicated datagrams and no roll-over happened (first: %s)",
+							i, sc.Readers[i].Transport, rs.decodeErrs, rs.firstErr)
+						return
+					}
 				}
 				if rs.failed || len(rs.playG) == 0 {
 					continue
